@@ -24,6 +24,11 @@ open Ferrous
 @[simp] theorem Res.pre_pre {α : Type} (r : Res α) (a b : List Nat) : (r.pre a).pre b = r.pre (b ++ a) := by
   cases r <;> simp [Res.pre]
 
+@[simp] theorem Res.map_ok {α β : Type} (f : α → β) (a : α) (r : Bytes) (al : List Nat) :
+    (Res.ok a r al).map f = .ok (f a) r al := rfl
+@[simp] theorem Res.map_err {α β : Type} (f : α → β) (e : Err) (al : List Nat) :
+    (Res.err e al : Res α).map f = .err e al := rfl
+
 @[simp] theorem lift_ok {α : Type} (a : α) (r : Bytes) : lift (.ok a : Except Err α) r = .ok a r [] := rfl
 @[simp] theorem lift_error {α : Type} (e : Err) (r : Bytes) : lift (.error e : Except Err α) r = .err e [] := rfl
 
